@@ -623,15 +623,21 @@ class Reach:
         # a switched local whose defs are constants / variant aggregates / discr of a flag / copies of flags
         changed = True
         cand = set(sw)
-        # include sources of discr() and copies
-        for l in list(sw):
+        # include sources of discr() and copies (transitively)
+        work = list(sw)
+        while work:
+            l = work.pop()
             for d in defs.get(l, []):
                 if d[2] == 'assign':
                     rv = d[3]
+                    src = None
                     if rv[0] == 'discr' and isinstance(rv[1], int):
-                        cand.add(rv[1])
+                        src = rv[1]
                     if rv[0] == 'use' and rv[1][0] in ('c', 'm') and isinstance(rv[1][1], int):
-                        cand.add(rv[1][1])
+                        src = rv[1][1]
+                    if src is not None and src not in cand:
+                        cand.add(src)
+                        work.append(src)
         for l in cand:
             ds = defs.get(l, [])
             if not ds or l <= fn.argc:
